@@ -174,6 +174,12 @@ class ndarray:
 
     def _mask_or_take(self, key):
         ks = key.tolist()
+        if key.ndim == 2:
+            # numpy: a 2-D boolean mask on a 2-D array selects ELEMENTS and returns them flattened
+            if self.ndim != 2 or key.shape != self.shape:
+                raise IndexError("boolean index did not match indexed array")
+            out = [x for r, kr in zip(self._d, ks) for x, k in zip(r, kr) if k]
+            return ndarray(out, (len(out),), self.dtype)
         rows = self._d
         if key.dtype is bool_ or (ks and isinstance(ks[0], bool)):
             if len(ks) != self._shape[0]:
@@ -267,7 +273,16 @@ class ndarray:
                 return False
         return True
 
-    def any(self):
+    def any(self, axis=None):
+        if axis in (1, -1) and self.ndim == 2:
+            out = []
+            for r in self._d:
+                hit = False
+                for x in r:
+                    if x:
+                        hit = True
+                out.append(hit)
+            return ndarray(out, (len(out),), bool_)
         for x in (self._d if self.ndim == 1 else [y for r in self._d for y in r]):
             if x:
                 return True
@@ -515,13 +530,43 @@ def floor(x):
     return math.floor(x)
 
 
+def abs(x):  # noqa: A001 - numpy name
+    from models.xrl import OpaqueData
+
+    if isinstance(x, OpaqueData):
+        return _OpaqueOps(x.shape)
+    if isinstance(x, ndarray):
+        return x._ew(None, lambda v, _: v if v >= 0 else -v)
+    return x if x >= 0 else -x
+
+
+class _OpaqueOps:
+    """values not modelled; supports the shape-only operations the glue applies"""
+
+    def __init__(self, shape):
+        self.shape = tuple(shape)
+        self.ndim = len(self.shape)
+        self.dtype = None
+
+    def __pow__(self, k):
+        return self
+
+
+def swapaxes(a, i, j):
+    from models.xrl import OpaqueData
+
+    shape = list(a.shape)
+    shape[i], shape[j] = shape[j], shape[i]
+    return OpaqueData(shape)
+
+
 def _module():
     import numpy as _real
 
     m = types.ModuleType("numpy")
     g = globals()
     for name in ("ndarray", "zeros", "array", "asarray", "eye", "stack", "isnan", "mean", "exp", "c_", "arange",
-                 "concatenate", "diff", "isclose", "floor",
+                 "concatenate", "diff", "isclose", "floor", "abs", "swapaxes",
                  "float32", "float64", "int8", "int32", "int64", "bool_", "newaxis", "nan", "inf"):
         setattr(m, name, g[name])
     m.typing = _real.typing  # annotations only
